@@ -5,9 +5,10 @@
 //!   once  : tree after `sanitize_with(cfg)`;
 //!   twice : tree after a second `sanitize_with(cfg)` on the same `Html` object;
 //!   string-idempotent: with s1 = once.to_string(), whether sanitizing s1 (parse, sanitize_with,
-//!           to_string) equals the plain `Html::parse(s1).to_string()`.  This passes through
+//!           to_string) equals the plain `Html::parse(s1).to_string()`, and for the presets whether
+//!           `sanitize_html` returns s1 and, applied to it again, `Html::parse(s1).to_string()`.  This passes through
 //!           html5ever's parser and serializer, which are not modelled: search only.
-use ruma_html::Html;
+use ruma_html::{Html, HtmlSanitizerMode, RemoveReplyFallback};
 
 use crate::{
     c14::{case_sx, decode_case, run_streams, tag_of, tree_sx, Cfg},
@@ -28,7 +29,15 @@ pub fn run_case(cfg: &Cfg, html: &str) -> Sx {
         let twice = tree_sx(&doc);
         let again = Html::parse(&s1);
         again.sanitize_with(&conf);
-        let string_idem = again.to_string() == Html::parse(&s1).to_string();
+        let mut string_idem = again.to_string() == Html::parse(&s1).to_string();
+        // the string entry point itself, applied once and twice (presets only: that is all it offers)
+        if let Some((m @ (1 | 2), reply)) = cfg.preset_kind() {
+            let mode = if m == 1 { HtmlSanitizerMode::Strict } else { HtmlSanitizerMode::Compat };
+            let rrf = if reply { RemoveReplyFallback::Yes } else { RemoveReplyFallback::No };
+            let e1 = ruma_html::sanitize_html(&html, mode, rrf);
+            let e2 = ruma_html::sanitize_html(&e1, mode, rrf);
+            string_idem = string_idem && e1 == s1 && e2 == Html::parse(&e1).to_string();
+        }
         Sx::ok(Sx::L(vec![once, twice, Sx::L(vec![Sx::b(string_idem)])]))
     })
 }
